@@ -15,6 +15,9 @@ VERIF = os.path.dirname(os.path.dirname(os.path.abspath(__file__)))
 REPO = os.environ.get('VERIF_REPO', '/repo')
 COQDIR = os.path.join(VERIF, 'coq')
 NPROC = int(os.environ.get('VERIF_JOBS', '16'))
+# VERIF_SCRATCH=<dir>: build output, evidence and replays of this run go under <dir> instead of /verif
+# (used only to try the checks on seeded changes in scratch worktrees without disturbing the real run)
+OUT = os.environ.get('VERIF_SCRATCH') or VERIF
 
 # Axioms declared by Coq's standard library that developments here may rely on
 # (DESIGN.md section 7).  Anything else in a Print Assumptions output fails the check.
@@ -156,7 +159,7 @@ class Ctx:
         self.pid, self.tier, self.seed = pid, tier, seed
         self.t0 = time.time()
         self.rng = random.Random(seed * 1000003 + int(pid[1:]))
-        self.build = os.path.join(VERIF, 'build', pid)
+        self.build = os.path.join(OUT, 'build', pid)
         self.repo = REPO
         self.thorough = (tier == 'thorough')
         self.theorems = []          # (name, axioms or None if failed, file)
@@ -344,10 +347,10 @@ class Ctx:
 
     # ---- verdict -------------------------------------------------------
     def write_replay(self, rec):
-        os.makedirs(os.path.join(VERIF, 'replays'), exist_ok=True)
+        os.makedirs(os.path.join(OUT, 'replays'), exist_ok=True)
         n = 0
         while True:
-            p = os.path.join(VERIF, 'replays', '%s-%d-%d.json' % (self.pid, self.seed, n))
+            p = os.path.join(OUT, 'replays', '%s-%d-%d.json' % (self.pid, self.seed, n))
             if not os.path.exists(p): break
             n += 1
         rec = dict(rec)
@@ -428,10 +431,10 @@ class Ctx:
         ev = {'property_id': self.pid, 'tier': self.tier, 'seed': self.seed, 'level': level,
               'coverage': cov, 'assumptions': self.assumptions, 'wall_s': round(time.time() - self.t0, 2),
               'violations': violations}
-        os.makedirs(os.path.join(VERIF, 'evidence'), exist_ok=True)
-        tmp = os.path.join(VERIF, 'evidence', '.%s.json.tmp' % self.pid)
+        os.makedirs(os.path.join(OUT, 'evidence'), exist_ok=True)
+        tmp = os.path.join(OUT, 'evidence', '.%s.json.tmp' % self.pid)
         with open(tmp, 'w') as f: json.dump(ev, f, indent=1, default=str)
-        os.replace(tmp, os.path.join(VERIF, 'evidence', '%s.json' % self.pid))
+        os.replace(tmp, os.path.join(OUT, 'evidence', '%s.json' % self.pid))
 
 
 def run_impl(script, payload, timeout=600, repo=None):
